@@ -85,6 +85,14 @@ def counterexample(doc, f, r, work, root, repo):
     m = re.search(r'--object-bits (\d+)', cmd)
     if m: ob = int(m.group(1))
     inp = None
+    fam0 = family_of(r, root)
+    if fam0 is not None and getattr(fam0, 'history_search', False):
+        # families whose failing input is a HISTORY of calls (status tracker): the verifier's one-step counterexample state is not an API input;
+        # the driver searches the small-alphabet histories natively instead
+        doc['inputs'] = {'note': 'one-step counterexample state is not reachable through the API as such; the driver searches call histories'}
+        try: fam0(doc, {}, r, work, root, repo)
+        except Exception as ex: doc['native'] = 'no-driver'; doc['replay_error'] = repr(ex)
+        return
     # counterexample mode: buffers of symbolic length get a constant capacity so that CBMC's trace lists their initial bytes
     for cap in (64, 4096):
         gb = r['rebuild'](['-DVERIF_CEX=%d' % cap], 'cex%d' % cap) if r.get('rebuild') else None
@@ -485,8 +493,89 @@ def value_replay(doc, inp, r, work, root, repo):
             doc['native'] = 'reproduced'; doc['replay_driver'] = code; doc['replay_argv'] = argv; return
     doc['native'] = 'not-reproduced'; doc['replay_driver'] = code; doc['replay_argv'] = runs[0]
 
+# ----------------------------------------------------------------------------- family: status tracker (C16)
+STATUS_DRIVER = r"""
+#include <map>
+using namespace ASAM::CMP;
+// reference: device id -> (stamp of latest capture-module status, interface id -> stamp of latest interface status)
+struct RefDev { uint64_t stamp; std::map<uint32_t, uint64_t> ifs; };
+static std::map<uint16_t, RefDev> ref;
+static Status* st;
+static uint64_t stampNo;
+static Packet mk(int kind, uint16_t dev, uint32_t iface) {
+  Packet p;
+  if (kind == 0) { CaptureModulePayload c; c.setData("d", "s", "h", "w", {7}); p.setPayload(c); }
+  else if (kind == 1) { InterfacePayload i; i.setInterfaceId(iface); p.setPayload(i); }
+  else { CanPayload c; uint8_t b[2] = {1, 2}; c.setData(b, 2); p.setPayload(c); }
+  p.setDeviceId(dev); p.setTimestamp(++stampNo); return p;
+}
+static std::string hist;
+static int check(const char* after) {
+  int bad = 0;
+  if (st->getDeviceStatusCount() != ref.size()) { printf("VIOLATED after %s: %zu device entries, reference has %zu\n", after, st->getDeviceStatusCount(), ref.size()); return 1; }
+  for (uint16_t d = 0; d < 6; ++d) {
+    size_t ix = st->getIndexByDeviceId(d); auto it = ref.find(d);
+    if (it == ref.end()) { if (ix != st->getDeviceStatusCount()) { printf("VIOLATED after %s: lookup of absent device %u returns %zu, not the count\n", after, d, ix); ++bad; } continue; }
+    if (ix >= st->getDeviceStatusCount()) { printf("VIOLATED after %s: device %u is not found\n", after, d); ++bad; continue; }
+    DeviceStatus& ds = st->getDeviceStatus(ix);
+    if (ds.getPacket().getDeviceId() != d) { printf("VIOLATED after %s: lookup of device %u returns the entry of device %u\n", after, d, ds.getPacket().getDeviceId()); ++bad; }
+    if (ds.getPacket().getTimestamp() != it->second.stamp) { printf("VIOLATED after %s: device %u does not hold its latest capture-module packet\n", after, d); ++bad; }
+    if (ds.getInterfaceStatusCount() != it->second.ifs.size()) { printf("VIOLATED after %s: device %u has %zu interface entries, reference %zu\n", after, d, ds.getInterfaceStatusCount(), it->second.ifs.size()); ++bad; continue; }
+    for (uint32_t i = 0; i < 5; ++i) {
+      size_t jx = ds.getIndexByInterfaceId(i); auto jt = it->second.ifs.find(i);
+      if (jt == it->second.ifs.end()) { if (jx != ds.getInterfaceStatusCount()) { printf("VIOLATED after %s: lookup of absent interface %u returns %zu\n", after, i, jx); ++bad; } continue; }
+      if (jx >= ds.getInterfaceStatusCount()) { printf("VIOLATED after %s: interface %u of device %u not found\n", after, i, d); ++bad; continue; }
+      if (ds.getInterfaceStatus(jx).getInterfaceId() != i || ds.getInterfaceStatus(jx).getPacket().getTimestamp() != jt->second) { printf("VIOLATED after %s: interface %u of device %u does not hold its latest packet\n", after, i, d); ++bad; }
+    }
+  }
+  return bad;
+}
+// operations: 0..2 cm(dev) | 3..8 if(dev, iface) | 9..11 data(dev) | 12..14 removeDevice(dev) | 15..20 removeInterface(dev, iface) | 21 clear
+static const uint16_t DEV[3] = {1, 2, 3}; static const uint32_t IFC[2] = {1, 2};
+static void apply(int op) {
+  char b[64];
+  if (op < 3) { uint16_t d = DEV[op]; st->update(mk(0, d, 0)); ref[d].stamp = stampNo; snprintf(b, 64, "cm(%u) ", d); }
+  else if (op < 9) { uint16_t d = DEV[(op - 3) / 2]; uint32_t i = IFC[(op - 3) % 2]; st->update(mk(1, d, i)); if (ref.count(d)) ref[d].ifs[i] = stampNo; snprintf(b, 64, "if(%u,%u) ", d, i); }
+  else if (op < 12) { uint16_t d = DEV[op - 9]; st->update(mk(2, d, 0)); snprintf(b, 64, "data(%u) ", d); }
+  else if (op < 15) { uint16_t d = DEV[op - 12]; st->removeDeviceById(d); ref.erase(d); snprintf(b, 64, "removeDevice(%u) ", d); }
+  else if (op < 21) { uint16_t d = DEV[(op - 15) / 2]; uint32_t i = IFC[(op - 15) % 2]; size_t ix = st->getIndexByDeviceId(d);
+                      if (ix < st->getDeviceStatusCount()) st->getDeviceStatus(ix).removeInterfaceById(i); if (ref.count(d)) ref[d].ifs.erase(i); snprintf(b, 64, "removeInterface(%u,%u) ", d, i); }
+  else { st->clear(); ref.clear(); snprintf(b, 64, "clear "); }
+  hist += b;
+}
+int main(int argc, char** argv) {
+  int depth = argc > 1 ? atoi(argv[1]) : 5; const int NOPS = 22;
+  std::vector<int> seq(depth, 0);
+  unsigned long long n = 0;
+  for (int len = 1; len <= depth; ++len) {
+    std::vector<int> s(len, 0);
+    for (;;) {
+      Status status; st = &status; ref.clear(); hist.clear(); stampNo = 0;
+      for (int k = 0; k < len; ++k) { apply(s[k]); if (k == len - 1 && check(hist.c_str())) { printf("history: %s\n", hist.c_str()); return 3; } }
+      ++n; int k = len - 1; while (k >= 0 && ++s[k] == NOPS) { s[k] = 0; --k; } if (k < 0) break;
+    }
+  }
+  printf("histories=%llu violations=0\n", n); return 0;
+}
+"""
+
+def status_replay(doc, inp, r, work, root, repo):
+    """C16: exhaustive search of call histories (3 devices x 2 interfaces, all operations, length <= 4) against a reference latest-message map"""
+    code = PRE + STATUS_DRIVER
+    exe = build_driver(work, repo, 'drv_status', code)
+    doc['native_expected'] = 'violations=0'
+    for argv in (['4'], ['5']):
+        # leak detection off: UBSan's vptr report (Packet stores a sliced Payload that the status code down-casts) allocates through the demangler and is reported as a leak
+        p = subprocess.run([exe] + argv, stdout=subprocess.PIPE, stderr=subprocess.PIPE, timeout=600, env=dict(os.environ, ASAN_OPTIONS='detect_leaks=0'))
+        doc['native_call'] = 'status history search, every history of length <= ' + argv[0]; doc['replay_driver'] = code; doc['replay_argv'] = argv
+        if p.returncode != 0:
+            doc['native_observed'] = p.stdout.decode()[-800:]; doc['native_stderr'] = p.stderr.decode()[-400:]; doc['native'] = 'reproduced'; return
+    doc['native'] = 'not-reproduced'; doc['native_observed'] = p.stdout.decode()[-200:]
+status_replay.history_search = True
+
 def family_of(r, root):
     name = r['name']
+    if name.startswith(('h_Status_', 'h_DeviceStatus_', 'h_InterfaceStatus_')): return status_replay
     if name.startswith(('h_Payload_op_eq', 'h_TECMP_Payload_op_eq', 'h_Packet_op_eq', 'h_Packet_op_ne', 'h_Packet_copy_assign', 'h_Packet_self_assign')): return value_replay
     if 'Encoder_' in (r['enforce'] or '') or name.startswith('lemma_') and 'batch' in name: return encoder_replay
     if (r['enforce'] or '') in VALIDATORS: return validator_replay
